@@ -94,6 +94,10 @@ func runRepro() {
 		reproCrash()
 		return
 	}
+	if len(os.Args) > 2 && os.Args[2] == "9" {
+		repro9()
+		return
+	}
 	obj := func(name, val string, labels, sel map[string]string) Obj {
 		return mk(Obj{Name: name, Namespace: "ns", Val: val, Labels: labels, Selector: sel})
 	}
@@ -253,4 +257,114 @@ func runRepro() {
 			fmt.Printf("8. nested member addition: not reproduced in %d runs\n", runs)
 		}
 	}
+
+	repro9()
+}
+
+// gate is a krt.Syncer the scenario opens by hand.
+type gate chan struct{}
+
+func (g gate) WaitUntilSynced(stop <-chan struct{}) bool {
+	select {
+	case <-g:
+		return true
+	case <-stop:
+		return false
+	}
+}
+
+func (g gate) HasSynced() bool {
+	select {
+	case <-g:
+		return true
+	default:
+		return false
+	}
+}
+
+// repro9 (deterministic): NestedJoinWithMergeCollection, a member is removed from the outer collection while
+// the join still has an event of (any) member for one of the removed member's keys to process.
+//
+// The join computes every merge over the LIVE outer collection (calculateMerged -> j.collections.List()), but
+// learns of the removal through an event of the outer collection that is handled on another goroutine
+// (handleCollectionDelete, not on j.queue). An event handled in between already reflects the removal:
+//   - key only in the removed member: the queued event is turned into Delete(merged object) and the key leaves
+//     j.outputs; handleCollectionDelete then finds res == nil && !ok ("this shouldn't happen"), and publishes a
+//     second Delete with the member's un-merged object as Old               => delete of an unknown key
+//   - key also in another member: the queued event publishes Update(old merge -> merge without the member);
+//     handleCollectionDelete publishes Update(outputs[key] -> same merge) without an Equal test => Old == New
+//
+// The window is held open here with a third member whose Syncer is closed by hand: the outer handler goroutine
+// waits in handleCollectionUpdate -> WaitUntilSynced (holding no lock) with the delete event queued behind it.
+// In the monitor's programs the window opens by scheduling alone: two removals issued back to back, the first on
+// a nested join that is itself a member of the second (`ndel n4 member=1; ndel n5 member=1`, n5 = nested[n4 n0 n1]).
+func repro9() {
+	obj := func(name, val string) Obj { return mk(Obj{Name: name, Namespace: "ns", Val: val}) }
+	// ---- 9a. minimal, no scheduling involved: two members that share a key leave the outer collection in one batch.
+	// handleCollectionDelete(first) merges over the live outer collection (already empty) and publishes Delete(merged);
+	// handleCollectionDelete(second) finds the key neither in the live members nor in outputs and publishes Delete again.
+	{
+		stop := make(chan struct{})
+		a := krt.NewStaticCollection[Obj](nil, []Obj{obj("k", "a0")}, krt.WithStop(stop), krt.WithName("a"))
+		b := krt.NewStaticCollection[Obj](nil, []Obj{obj("k", "b0")}, krt.WithStop(stop), krt.WithName("b"))
+		outer := krt.NewStaticCollection[krt.Collection[Obj]](nil, []krt.Collection[Obj]{a, b}, krt.WithStop(stop), krt.WithName("outer"))
+		n := krt.NestedJoinWithMergeCollection[Obj](outer, func(ts []Obj) *Obj {
+			o := mk(Obj{Name: ts[0].Name, Namespace: ts[0].Namespace, Val: fmt.Sprintf("merged %d", len(ts))})
+			return &o
+		}, krt.WithStop(stop), krt.WithName("n"))
+		r := &recorder{}
+		n.Register(r.rec)
+		idle()
+		outer.DeleteObjects(func(krt.Collection[Obj]) bool { return true })
+		idle()
+		fmt.Printf("9a. nested join {a:[k] b:[k]}, outer.DeleteObjects(all): want [add, delete]; got %q\n", r.get())
+		close(stop)
+	}
+	stop := make(chan struct{})
+	defer close(stop)
+	g := make(gate)
+	a := krt.NewStaticCollection[Obj](nil, []Obj{obj("both", "a0")}, krt.WithStop(stop), krt.WithName("a"))
+	b := krt.NewStaticCollection[Obj](nil, []Obj{obj("both", "b0"), obj("onlyb", "b0")}, krt.WithStop(stop), krt.WithName("b"))
+	d := krt.NewStaticCollection[Obj](g, nil, krt.WithStop(stop), krt.WithName("d"))
+	outer := krt.NewStaticCollection[krt.Collection[Obj]](nil, []krt.Collection[Obj]{a, b}, krt.WithStop(stop), krt.WithName("outer"))
+	n := krt.NestedJoinWithMergeCollection[Obj](outer, firstVal, krt.WithStop(stop), krt.WithName("n"))
+	r := &recorder{}
+	n.RegisterBatch(func(es []krt.Event[Obj]) {
+		for _, e := range es {
+			r.rec(e)
+		}
+	}, true)
+	waitEvents := func(subs ...string) bool {
+		for t := 0; t < 20000; t++ {
+			all := strings.Join(r.get(), "\n")
+			ok := true
+			for _, s := range subs {
+				ok = ok && strings.Contains(all, s)
+			}
+			if ok {
+				return true
+			}
+			time.Sleep(time.Millisecond)
+		}
+		return false
+	}
+	idle()                                                 // 2 adds delivered
+	outer.UpdateObject(d)                                  // d becomes a member (Add: subscription only)
+	outer.UpdateObject(d)                                  // Update: the outer handler now waits for d to sync
+	time.Sleep(50 * time.Millisecond)                      // (not needed for the outcome: the next event queues behind in any case)
+	outer.DeleteObject(krt.GetKey[krt.Collection[Obj]](b)) // b leaves the live outer collection; the join's handler has not run yet
+	b.UpdateObject(obj("onlyb", "b1"))                     // events of the (still subscribed) member b ...
+	a.UpdateObject(obj("both", "a1"))                      // ... and of a for a key b also has
+	if !waitEvents("delete ns/onlyb", "new.Val=a1(merged 1)") {
+		fmt.Printf("9b. setup failed, events so far: %q\n", r.get())
+		return
+	}
+	close(g) // the outer handler proceeds: handleCollectionUpdate(d), then handleCollectionDelete(b)
+	idle()
+	fmt.Printf("9b. nested join {a:[both] b:[both onlyb]}; b removed from the outer collection while events for both keys are queued.\n" +
+		"   want: add both, add onlyb, then exactly one delete of ns/onlyb and no Update with old == new\n   got:\n")
+	for _, e := range r.get() {
+		fmt.Printf("     %s\n", e)
+	}
+	fmt.Printf("   final content %s (want [ns/both=a1(merged 1)])\n", keysOf(n.List()))
 }
